@@ -39,6 +39,16 @@ def run(tier, seed):
             s.cred_id = s.cred_id[: (0, 1, 7)[(slot // 3) % 3]] + pats[(slot // 3) % len(pats)] + s.cred_id[:2]
         s.count = rng.choice([0, 1, 100])
         s.flags = (0x45, 0x4D, 0x5D, 0x45)[slot % 4]          # not backup eligible / eligible, not backed up / eligible and backed up
+        registered_key = authsim.Cred(kind, slot=s.cred_slot).cose_bytes
+        if slot % 2 == 0:
+            # a COSE key may carry members beyond the ones its type requires (kid 2, key_ops 4 - whatever they list -, Base IV 5, private labels): they are part of the
+            # key bytes registration returns, and mean nothing to verification
+            import cbor2 as _cb
+            extras = [{4: [1]}, {4: ["sign"]}, {2: b"kid-1"}, {4: [1, 2]}, {5: bytes(8)}, {4: [2]}, {"x": 1}, {-70000: b""}, {4: [1, 9], 2: b"k"}, {4: []}][(slot // 2) % 10]
+            cm_ = dict(authsim.Cred(kind, slot=s.cred_slot).cose_map())
+            cm_.update(extras)
+            registered_key = _cb.dumps(cm_)
+            s.k["cose_bytes"] = registered_key
         pd, reg = regsim.build(s)
         pol = regrun.policy_of(pd)
         il, ml = B.run_case(pol, reg, regrun.FORMS[slot % 3], "accept", f"register/{fmt}", scn=s)
@@ -48,9 +58,9 @@ def run(tier, seed):
             vr = webauthn.verify_registration_response(credential=reg.as_dict(), **pol.kwargs())
         cred = authsim.Cred(kind, slot=s.cred_slot)
         stored_id, stored_key, stored_count = vr.credential_id, vr.credential_public_key, vr.sign_count
-        if stored_key != cred.cose_bytes or stored_id != s.cred_id:
+        if stored_key != registered_key or stored_id != s.cred_id:
             chk.violation("registration did not return the credential id / public key bytes that were registered", f"returned-key {fmt} {kind}",
-                          {"fmt": fmt, "kind": kind, "returned_key": stored_key.hex(), "registered_key": cred.cose_bytes.hex()})
+                          {"fmt": fmt, "kind": kind, "returned_key": stored_key.hex(), "registered_key": registered_key.hex()})
         # authenticate k times with advancing counters, fed only with what registration returned
         for step in range(2 if quick else 5):
             a_s = authcat.Scn(kind)
